@@ -372,7 +372,7 @@ func typeKey(t types.Type) string {
 		}
 		return n.Obj().Name()
 	}
-	return "cell:" + types.TypeString(t, func(p *types.Package) string { return p.Name() })
+	return "cell:" + canonTypeString(t)
 }
 
 // fieldKey returns the heap key prefix of the location Root.path and the type at that location.
@@ -394,7 +394,22 @@ func fieldKey(root types.Type, path []int) (string, types.Type) {
 }
 
 func elemKey(elem types.Type) string {
-	return "A:" + types.TypeString(elem, func(p *types.Package) string { return p.Name() })
+	return "A:" + canonTypeString(elem)
+}
+
+// canonTypeString: like types.TypeString but insensitive to the byte/uint8 and rune/int32 aliases.
+func canonTypeString(t types.Type) string {
+	s := types.TypeString(t, func(p *types.Package) string { return p.Name() })
+	if b, ok := t.(*types.Basic); ok {
+		switch b.Kind() {
+		case types.Uint8:
+			return "uint8"
+		case types.Int32:
+			return "int32"
+		}
+	}
+	s = strings.Replace(s, "[]byte", "[]uint8", -1)
+	return s
 }
 
 // ---------- state ----------
@@ -406,6 +421,7 @@ type State struct {
 	base    int             // index of the current allocation base symbol a<base>
 	allocN  int             // allocations since base
 	written map[string]bool // heap keys stored to (for loop modset discovery), shared along a path
+	gw      []ghostWrite    // ghost stream cells written (for ghost frame checks)
 	dead    bool
 }
 
@@ -417,6 +433,7 @@ func (s *State) Clone() *State {
 	n := &State{base: s.base, allocN: s.allocN}
 	n.pc = append([]*Term(nil), s.pc...)
 	n.facts = append([]*Term(nil), s.facts...)
+	n.gw = append([]ghostWrite(nil), s.gw...)
 	n.heaps = make(map[string]*Term, len(s.heaps))
 	for k, v := range s.heaps {
 		n.heaps[k] = v
@@ -636,4 +653,9 @@ func funcID(fn interface{}) *Term {
 		funcByID[id] = fn
 	}
 	return IntConst(id)
+}
+
+type ghostWrite struct {
+	key string
+	ref *Term
 }
